@@ -138,7 +138,13 @@ fn one_run(report: &mut Report, seed: u64, rid: u64, dir: &str, steps: usize) ->
             return None;
         }
     };
-    let ctl = Arc::new(SchedCtl::new(seed ^ rid, 20, 200).target("retire.before_markers", 200, 600).target("retire.before_release", 200, 600).target("flush.before_publish", 150, 400).target("read.pinned.unlocked", 200, 1500));
+    // a third of the runs hold both sides of the retirement hand-over for milliseconds: readers in front of the pin
+    // and while pinned, the retirement pass between its reader check and its marker write
+    let ctl = if rid % 3 == 2 {
+        Arc::new(SchedCtl::new(seed ^ rid, 20, 200).target("retire.before_markers", 800, 4000).target("read.before_pin", 400, 5000).target("read.pinned.unlocked", 400, 6000).target("retire.before_release", 200, 600))
+    } else {
+        Arc::new(SchedCtl::new(seed ^ rid, 20, 200).target("retire.before_markers", 200, 600).target("retire.before_release", 200, 600).target("flush.before_publish", 150, 400).target("read.pinned.unlocked", 200, 1500))
+    };
     hub().set_sched(Some(ctl.clone()));
     let pause = Arc::new(AtomicBool::new(false));
     let stop = Arc::new(AtomicBool::new(false));
@@ -146,7 +152,7 @@ fn one_run(report: &mut Report, seed: u64, rid: u64, dir: &str, steps: usize) ->
     let mut run = Run { store: Some(store.clone()), cfg: cfg.clone(), path: path.clone(), model: BTreeMap::new(), seq: 0, report, log: Vec::new(), pause: pause.clone() };
     // background readers pin extents so that releases get deferred
     let mut readers = Vec::new();
-    let with_readers = rng.chance(1, 2);
+    let with_readers = rid % 3 == 2 || rng.chance(1, 2);
     if with_readers {
         for r in 0..2 {
             let (s, pause, stop) = (store.clone(), pause.clone(), stop.clone());
